@@ -62,6 +62,15 @@ func evictScripts() []Seq {
 		add(pol, 1000, e("set", "k1", "aa"), e("touch", "k1"), e("flushall"), e("touch", "k1"), e("objectfreq", "k1"))
 		add(pol, 1000, e("set", "k1", "aa"), e("get", "k1"), e("flushdb"), e("objectfreq", "k1"))
 		add(pol, 1000, e("set", "k1", "aa"), e("get", "k1"), e("flushdb"), e("objectidletime", "k1"))
+		// OBJECTFREQ / OBJECTIDLETIME before the first write (the database has no cache yet), then after it
+		add(pol, 1000, e("objectfreq", "k1"), e("objectidletime", "k1"), e("set", "k1", "aa"), e("objectfreq", "k1"), e("objectidletime", "k1"))
+		// a second database without keys while the first one crosses the limit again and again (allkeys-random used to
+		// spin in the empty database's adjustment; volatile-random used to index its empty volatile list)
+		add(pol, 120, eop(1, "select", "1"), eop(0, "set", "k1", "aa"), eop(0, "set", "k2", "aa"), eop(0, "set", "k3", "aa"), eop(0, "set", "k4", "aa"),
+			eop(0, "set", "k5", "aa"), eop(0, "set", "k6", "aa"), eop(0, "set", "k7", "aa"), eop(0, "set", "k8", "aa"), eop(1, "set", "k9", "bb"), eop(0, "get", "k8"))
+		// flush under pressure: the counter follows the data, the heaps and the volatile index are emptied
+		add(pol, 200, e("set", "k1", "aa", "ex", "100"), e("set", "k2", "bb"), e("get", "k1"), e("set", "k3", "cc", "ex", "100"), e("flushall"), e("set", "k4", "dd", "ex", "100"),
+			e("set", "k5", "ee"), e("get", "k4"), e("set", "k6", "ff", "ex", "100"), e("set", "k7", "gg"), e("del", "k4"), e("objectfreq", "k5"), e("objectidletime", "k5"))
 		// everything deleted while above the limit (usage only grows on overwrite)
 		add(pol, 150, e("set", "k1", "aa"), e("set", "k1", "bb"), e("set", "k1", "cc"), e("del", "k1"), e("set", "k2", "dd"), e("get", "k2"), e("set", "k3", "ee"))
 		// expiry of volatile keys under a limit
@@ -74,8 +83,10 @@ func evictScripts() []Seq {
 		add(pol, 400, e("rpush", "l1", "a", "b"), e("sadd", "s1", "m1", "m2"), e("hset", "h1", "f", "v"), e("set", "k1", "5"), e("incr", "k1"), e("lrange", "l1", "0", "-1"),
 			e("smembers", "s1"), e("hget", "h1", "f"), e("set", "k2", "aa"), e("sadd", "s1", "m3"), e("rpush", "l1", "c"), e("set", "k3", "bb"), e("set", "k4", "cc"))
 	}
-	// noeviction: a push on an absent key is two writes; the first one reaches the limit
+	// noeviction: a push on an absent key is one write (it used to be two, the first of which could reach the limit and
+	// leave an empty list behind when the second was refused); at the limit it is refused and leaves nothing
 	add("noeviction", 160, e("set", "k1", "aa"), e("set", "k2", "bb"), e("rpush", "l1", "a"), e("lrange", "l1", "0", "-1"), e("lpush", "l2", "a"))
+	add("noeviction", 120, e("set", "k1", "aa"), e("set", "k2", "bb"), e("rpush", "l1", "a"), e("lpush", "l2", "a", "b"), e("llen", "l1"), e("type", "l2"), e("rpushx", "l1", "a"))
 	// noeviction: exact hits of the limit with equal-sized entries (60 and 50 bytes)
 	for _, n := range []int{1, 2, 3, 4} {
 		var ops []Op
